@@ -1,21 +1,22 @@
-/* model_strtol.c -- glibc-faithful model of strtol for base 10 (the only base the format parser uses): skips isspace() characters,
+/* model_strtol.c -- glibc-faithful model of strtol for an explicit base 2..36 (the format parser uses base 10; the 16-bit round trip of C12 uses the others; for bases 16 and 2 an optional 0x/0b prefix is NOT modelled: never produced by from_int): skips isspace() characters,
  * accepts one optional sign, consumes decimal digits, clamps to LONG_MAX / LONG_MIN on overflow (errno is not observed by the
  * library), stores the end pointer (== nptr when no digits were consumed).  Every byte it examines is read through VP_ACCESS, so a
  * scan past the terminating NUL of an exactly-sized format string is reported. */
 #include "vp_rt.h"
 static int vp_isspace(uint8_t c) { return c == ' ' || (c >= 9 && c <= 13); }
+static int vp_digit(uint8_t c) { return (c >= '0' && c <= '9') ? c - '0' : (c >= 'a' && c <= 'z') ? c - 'a' + 10 : (c >= 'A' && c <= 'Z') ? c - 'A' + 10 : 99; }
 int64_t vpx_strtol(uint8_t *nptr, uint8_t **endptr, uint32_t base) {
-  VP_ASSERT(base == 10, "strtol model: base 10 only");
+  VP_ASSERT(base >= 2 && base <= 36, "strtol model: explicit base 2..36 (base 0/prefix detection is not modelled)");
   uint64_t i = 0; int neg = 0, any = 0, ovf = 0; uint64_t acc = 0;
   for (;;) { VP_ACCESS(nptr + i, 1); if (!vp_isspace(nptr[i])) break; i++; }
   if (nptr[i] == '-') { neg = 1; i++; } else if (nptr[i] == '+') i++;
   for (;;) {
     VP_ACCESS(nptr + i, 1);
     uint8_t c = nptr[i];
-    if (c < '0' || c > '9') break;
-    uint64_t d = (uint64_t)(c - '0');
+    if ((uint32_t)vp_digit(c) >= base) break;
+    uint64_t d = (uint64_t)vp_digit(c);
     uint64_t lim = neg ? (uint64_t)1 << 63 : ((uint64_t)1 << 63) - 1;
-    if (acc > (lim - d) / 10) ovf = 1; else acc = acc * 10 + d;
+    if (acc > (lim - d) / base) ovf = 1; else acc = acc * base + d;
     any = 1; i++;
   }
   if (!any) { if (endptr) *endptr = nptr; return 0; }
